@@ -92,7 +92,7 @@ def run_sequence(m, paths, seq, workdir):
                 t = p.get_translation()
                 outs.append('N' if t is None else sha(t))
             else:
-                f = os.path.join(workdir, 'w%d.py' % k)
+                f = os.path.join(workdir, 'written.py')       # every write of the sequence goes to the same file, as a user's would
                 p.write_translation(f)
                 text = open(f, encoding='utf-8').read()
                 outs.append(sha(text))
